@@ -352,6 +352,8 @@ static std::string runOp(Ctx& c, const std::vector<std::string>& a) {
     else if (way == 3 && otherDoc) { *c.docs[h1] = src; r = !c.docs[h1]->overflowed(); }            // JsonDocument::operator=(const T&)
     else if (way == 3 && src.is<JsonArrayConst>()) { JsonArray sa = H(a[2]).as<JsonArray>(); r = dstv.set(sa); }    // mutable typed reference as the source
     else if (way == 3 && src.is<JsonObjectConst>()) { JsonObject so = H(a[2]).as<JsonObject>(); r = dstv.set(so); }
+    else if (way == 0 && isdigit((unsigned char)a[2][0]) && std::stoul(a[2]) < c.docs.size() && (alias & 1)) r = dstv.set(*c.docs[std::stoul(a[2])]);   // the source given as the JsonDocument itself
+    else if (way == 0 && (alias & 2)) { JsonVariant sm = H(a[2]); r = dstv.set(sm); }                 // a mutable JsonVariant as the source
     else r = dstv.set(src);
     if (r && srcStr && a[1] != a[2] && JsonVariantConst(H(a[1])).is<JsonString>() &&
         JsonVariantConst(H(a[1])).as<JsonString>().isLinked() != srcLinked) return "true!LINK";
@@ -363,7 +365,12 @@ static std::string runOp(Ctx& c, const std::vector<std::string>& a) {
   if (op == "dshrink") { c.docs[std::stoul(a[1])]->shrinkToFit(); return "-"; }
   if (op == "dmove") { *c.docs[std::stoul(a[1])] = std::move(*c.docs[std::stoul(a[2])]); return "-"; }
   if (op == "dcopyctor") { JsonDocument tmp(*c.docs[std::stoul(a[2])]); std::string d1 = dump(tmp.as<JsonVariantConst>());
-                           return d1 == dump(c.docs[std::stoul(a[2])]->as<JsonVariantConst>()) ? "-" : "COPYCTOR-DIFFERS"; }
+                           SpyAllocator own;
+                           JsonDocument tmp2(c.docs[std::stoul(a[2])]->as<JsonVariantConst>(), &own);      // constructed from a value, on its own allocator
+                           JsonDocument tmp3(std::move(tmp));                                              // move construction
+                           std::string want = dump(c.docs[std::stoul(a[2])]->as<JsonVariantConst>());
+                           if (dump(tmp2.as<JsonVariantConst>()) != want || dump(tmp3.as<JsonVariantConst>()) != want) return "COPYCTOR-DIFFERS";
+                           return d1 == want ? "-" : "COPYCTOR-DIFFERS"; }
   if (op == "deser") {
     std::string text = unhex(a[2]);
     size_t h = std::stoul(a[1]);
